@@ -233,7 +233,7 @@ fn random_asrw(rng: &mut Rng, id: usize) -> ASrw {
     let racts = (0..n)
         .map(|_| match rng.below(12) {
             0 => RAct::Eof,
-            1 => RAct::Err([2u8, 3, 4, 5, 6][rng.below(5)]),
+            1 => RAct::Err([2u8, 3, 4, 5, 6, 1, 0][rng.below(7)]),
             2 => RAct::Data(1 + rng.below(4), true),
             3 | 4 | 5 => RAct::Pending,
             _ => RAct::Data(1 + rng.below(5), false),
@@ -243,7 +243,7 @@ fn random_asrw(rng: &mut Rng, id: usize) -> ASrw {
     let wacts = (0..m)
         .map(|_| match rng.below(7) {
             0 => WAct::Zero,
-            1 => WAct::Err([2u8, 3, 5, 6][rng.below(4)]),
+            1 => WAct::Err([2u8, 3, 5, 6, 1, 0][rng.below(6)]),
             2 => WAct::Part([1usize, 2, 3, 8, 15, 16, 63][rng.below(7)]),
             3 => WAct::Pending,
             _ => WAct::Full,
@@ -304,7 +304,7 @@ pub fn run(mode: &str, thorough: bool, seed: u64, w: &mut impl std::io::Write) {
         }
     }
     // every error kind std::io knows: on reads, writes, flush and shutdown, from either stream
-    for kind in 2u8..=38 {
+    for kind in 0u8..=38 {
         let ops = vec![AOp::Read(0, 4), AOp::Write(b"xy".to_vec()), AOp::Flush, AOp::Read(1, 4), AOp::Write(b"z".to_vec()), AOp::Shutdown, AOp::Read(0, 4)];
         if mode == "achain" {
             let mut s1 = ASrw::new(1, b"AB", vec![RAct::Err(kind), RAct::Data(1, false)]);
